@@ -121,6 +121,11 @@ def get_attribute(ctx, obj, name):
         return lambda ctx: obj
     if isinstance(obj, float) and name == 'is_integer':
         return lambda ctx: obj.is_integer()
+    if isinstance(obj, slice):
+        if name in ('start', 'stop', 'step'):
+            return getattr(obj, name)
+        if name == 'indices':
+            return lambda ctx, n: slice_indices(ctx, obj, n)
     if isinstance(obj, str):
         if name == 'format':
             ctx.dropped.add('str.format')
@@ -129,6 +134,23 @@ def get_attribute(ctx, obj, name):
     if obj is None or isinstance(obj, (bool, int, float)):
         raise PyRaise('AttributeError', note='%r object has no attribute %r' % (type(obj).__name__, name))
     raise Unsupported('attribute %s of %s' % (name, type(obj).__name__))
+
+
+def slice_indices(ctx, s, n):
+    """slice.indices(n) for step None/1 with symbolic bounds (CPython semantics)."""
+    if not (s.step is None or (isinstance(s.step, int) and s.step == 1)):
+        if any(isinstance(x, Sym) for x in (s.start, s.stop, s.step, n)):
+            raise Unsupported('slice.indices with a symbolic non-unit step')
+        return slice(s.start, s.stop, s.step).indices(n)
+    nn = zint(n)
+
+    def clamp(x, default):
+        if x is None:
+            return default
+        v = zint(x)
+        v = z3.If(v < 0, v + nn, v)
+        return z3.If(v < 0, 0, z3.If(v > nn, nn, v))
+    return (SInt(z3.simplify(clamp(s.start, z3.IntVal(0)))), SInt(z3.simplify(clamp(s.stop, nn))), 1)
 
 
 class DictMethod:
